@@ -40,7 +40,14 @@ func vBuildNeighbours(cs *clientState, k2v string) {
 // VerifH_c07_expired_is_absent: for every command template, the reply and
 // the resulting state with 'k' expired-but-still-stored equal those with
 // 'k' missing.
-func VerifH_c07_expired_is_absent() {
+func VerifH_c07_expired_is_absent() { vGoneIsAbsent(false) }
+
+// VerifH_c06_unlinked_is_absent: the same relation for a key that was
+// UNLINKed (logically deleted, its object possibly still in the table): every
+// command replies and leaves the keyspace exactly as if the key were missing.
+func VerifH_c06_unlinked_is_absent() { vGoneIsAbsent(true) }
+
+func vGoneIsAbsent(unlink bool) {
 	VerifSetup()
 	vSetNow(vT0, 0)
 	a := vNewClient() // k will be expired but stored
@@ -50,9 +57,13 @@ func VerifH_c07_expired_is_absent() {
 	vBuildNeighbours(b, k2v)
 	kind := 1 + vChoice("kind", 4)
 	vSeed(a, "k", kind, "v")
-	vAssert("expire-set", vIsInt(vCmd(a, "EXPIRE", "k", "100"), 1))
-	// the deadline passes; the object is still in the table
-	vSetNow(vT0+200, 0)
+	if unlink {
+		vAssert("unlink-1", vIsInt(vCmd(a, "UNLINK", "k"), 1))
+	} else {
+		vAssert("expire-set", vIsInt(vCmd(a, "EXPIRE", "k", "100"), 1))
+		// the deadline passes; the object is still in the table
+		vSetNow(vT0+200, 0)
+	}
 	_, stored := a.ds.data.get("k")
 	vAssume(stored)
 	t := vL2Commands[vChoice("cmd", len(vL2Commands))]
